@@ -332,9 +332,9 @@ Proof.
   rewrite IH; [reflexivity|]. intros Hs. apply H. right; exact Hs.
 Qed.
 
-Lemma uri_path_spec target : ~ In 0 target -> uri_path target = spec_path target.
+Lemma uri_path_spec target : uri_path target = spec_path target.
 Proof.
-  intros Hz. unfold uri_path. rewrite c_trunc_id by exact Hz. clear Hz.
+  unfold uri_path.
   induction target as [|c t IH]; [reflexivity|].
   cbn [find_char spec_path].
   destruct (c =? 63) eqn:E63.
@@ -347,11 +347,11 @@ Proof.
       change (Nat.ltb (S q) (S f)) with (Nat.ltb q f). rewrite <- IH. destruct (Nat.ltb q f); reflexivity.
 Qed.
 
-Lemma handle_request_is_dispatch rs method target : Forall wf_route rs -> ~ In 0 target ->
+Lemma handle_request_is_dispatch rs method target : Forall wf_route rs ->
   handle_request rs method target = dispatch rs method target.
 Proof.
-  intros Hrs Hz. unfold handle_request, dispatch. rewrite find_route_spec by exact Hrs.
-  rewrite uri_path_spec by exact Hz. destruct (spec_find rs (spec_path target)) as [[r p]|]; reflexivity.
+  intros Hrs. unfold handle_request, dispatch. rewrite find_route_spec by exact Hrs.
+  rewrite uri_path_spec. destruct (spec_find rs (spec_path target)) as [[r p]|]; reflexivity.
 Qed.
 
 (* tables built through add_method from well-formed patterns *)
@@ -385,13 +385,13 @@ Proof.
   intros H. apply G; [constructor|exact H].
 Qed.
 
-Lemma C16_refines_lemma regs method target : Forall wf_registration regs -> ~ In 0 target ->
+Lemma C16_refines_lemma regs method target : Forall wf_registration regs ->
   handle_request (build_table regs) method target = dispatch (build_table regs) method target.
-Proof. intros H Hz. apply handle_request_is_dispatch; [apply build_table_wf, H|exact Hz]. Qed.
+Proof. intros H. apply handle_request_is_dispatch. apply build_table_wf, H. Qed.
 
-Lemma C16_never_throws_lemma regs method target : Forall wf_registration regs -> ~ In 0 target ->
+Lemma C16_never_throws_lemma regs method target : Forall wf_registration regs ->
   handle_request (build_table regs) method target <> DThrow.
 Proof.
-  intros H Hz. rewrite C16_refines_lemma by assumption. unfold dispatch.
+  intros H. rewrite C16_refines_lemma by assumption. unfold dispatch.
   destruct (spec_find _ _) as [[r p]|]; [|discriminate]. destruct (find_method _ _); discriminate.
 Qed.
